@@ -75,7 +75,7 @@ func (s Segment) Check(params index.Params) error {
 	defer func() { _ = log.Close() }()
 
 	var position = log.InitialPosition()
-	var indexTime int64
+	var indexTime = index.TimeNone
 	var checkIndex []index.Item
 	for {
 		msg, nextPosition, err := log.Read(position)
@@ -131,7 +131,7 @@ func (s Segment) Recover(params index.Params) error {
 	defer func() { _ = restore.Close() }() // ignoring since its only applicable if an error has happened
 
 	var position = log.InitialPosition()
-	var indexTime int64
+	var indexTime = index.TimeNone
 	var corrupted = false
 	var restoreIndex []index.Item
 	for {
@@ -242,7 +242,7 @@ func (s Segment) Reindex(params index.Params, version index.Version) ([]index.It
 
 func (s Segment) ReindexReader(params index.Params, log *message.Reader, version index.Version) ([]index.Item, error) {
 	var position = log.InitialPosition()
-	var indexTime int64
+	var indexTime = index.TimeNone
 	var newIndex []index.Item
 	for {
 		msg, nextPosition, err := log.Read(position)
@@ -321,7 +321,7 @@ func (s Segment) Migrate(mversion message.Version, iversion index.Version, param
 	defer func() { _ = migratedLog.Close() }() // ignoring since its only applicable if an error has happened
 
 	var oldPosition = oldLog.InitialPosition()
-	var indexTime int64
+	var indexTime = index.TimeNone
 	var migratedIndex []index.Item
 	for {
 		msg, nextOldPosition, err := oldLog.Read(oldPosition)
@@ -473,7 +473,7 @@ func (src Segment) Rewrite(dropOffsets map[int64]struct{}, params index.Params, 
 	defer func() { _ = dstLog.Close() }() // ignoring since its only applicable if an error has happened
 
 	var srcPosition = srcLog.InitialPosition()
-	var indexTime int64
+	var indexTime = index.TimeNone
 	var dstIndex []index.Item
 	for {
 		msg, nextSrcPosition, err := srcLog.Read(srcPosition)
